@@ -503,6 +503,8 @@ func (c *Ctx) ruleFieldUniq(rule string) {
 				}
 				if core.MustHold(fn, est)[b] {
 					c.R.Ok(rule, k, c.M.InstrPos(mu), "mapping of a property to a struct field", "on every path a lookup keyed by the field (its Index / Name) in a second table found it not taken")
+				} else if why := scannedRegistry(fn, b, fromStructFieldVal); why != "" {
+					c.R.Ok(rule, k, c.M.InstrPos(mu), "mapping of a property to a struct field", why)
 				} else {
 					c.R.Bad(rule, k, c.M.InstrPos(mu), "two properties can be mapped to the same struct field",
 						"one property is found by the field's json tag, another by the field's name: Unserialize stores both values into the one field in the iteration order of the supplied map, so a supplied value is overwritten by the other property's value or default at random")
@@ -513,4 +515,173 @@ func (c *Ctx) ruleFieldUniq(rule string) {
 	if n == 0 {
 		c.R.Unresolved(rule, "construction of the property -> struct field cache (insertion into a map[string]reflect.StructField)")
 	}
+}
+
+// scannedRegistry: the block b (an insertion into the field cache) is reached only behind a loop that compares a key
+// computed from the StructField with the key of every field registered before - every comparison that matches leaves
+// the function (panic / return) without reaching b - and the registry the loop walks is extended, on the way to b, by
+// an entry computed from the StructField. This is the scan form of the not-taken lookup: it is what a comparison that
+// is not an equality (one index path being the beginning of another) needs.
+func scannedRegistry(fn *ssa.Function, b *ssa.BasicBlock, fromFieldBase func(ssa.Value, int) bool) string {
+	for _, h := range fn.Blocks {
+		if !isLoopHeader(h) || !h.Dominates(b) {
+			continue
+		}
+		// natural loop of h
+		loop := map[*ssa.BasicBlock]bool{h: true}
+		var work []*ssa.BasicBlock
+		for _, p := range h.Preds {
+			if h.Dominates(p) && !loop[p] {
+				loop[p] = true
+				work = append(work, p)
+			}
+		}
+		for len(work) > 0 {
+			x := work[len(work)-1]
+			work = work[:len(work)-1]
+			for _, p := range x.Preds {
+				if !loop[p] {
+					loop[p] = true
+					work = append(work, p)
+				}
+			}
+		}
+		if loop[b] {
+			continue // the insertion is inside this loop (the loop over the properties), not behind it
+		}
+		// the element the loop walks: an Index / IndexAddr / Lookup / Next inside the loop
+		fromElem := func(v ssa.Value) bool {
+			return derivedFrom(v, func(x ssa.Value) bool {
+				in, ok := x.(ssa.Instruction)
+				if !ok || !loop[in.Block()] {
+					return false
+				}
+				switch x.(type) {
+				case *ssa.IndexAddr, *ssa.Index, *ssa.Lookup, *ssa.Next:
+					return true
+				}
+				return false
+			})
+		}
+		fromField := func(v ssa.Value, _ int) bool {
+			return derivedFrom(v, func(x ssa.Value) bool { return fromFieldBase(x, 0) })
+		}
+		cmps, leaving := 0, true
+		for lb := range loop {
+			for _, in := range lb.Instrs {
+				var x, y ssa.Value
+				switch c := in.(type) {
+				case *ssa.Call:
+					switch core.StaticCalleeName(&c.Call) {
+					case "strings.HasPrefix", "strings.EqualFold", "bytes.Equal", "bytes.HasPrefix", "slices.Equal", "reflect.DeepEqual":
+						if len(c.Call.Args) == 2 {
+							x, y = c.Call.Args[0], c.Call.Args[1]
+						}
+					}
+				case *ssa.BinOp:
+					if c.Op == token.EQL {
+						x, y = c.X, c.Y
+					}
+				}
+				if x == nil || !((fromField(x, 0) && fromElem(y)) || (fromField(y, 0) && fromElem(x))) {
+					continue
+				}
+				cmps++
+				// the matching outcome leaves the function without reaching the insertion
+				iff, ok := lb.Instrs[len(lb.Instrs)-1].(*ssa.If)
+				if !ok || iff.Cond != in.(ssa.Value) {
+					leaving = false
+					continue
+				}
+				t := lb.Succs[0]
+				if t == b || blockReaches(t, b, nil) {
+					leaving = false
+				}
+			}
+		}
+		if cmps == 0 || !leaving {
+			continue
+		}
+		// the registry is extended by an entry computed from the field on the way to b
+		extended := false
+		for _, xb := range fn.Blocks {
+			if !(xb == b || xb.Dominates(b)) || loop[xb] || !h.Dominates(xb) {
+				continue
+			}
+			for _, in := range xb.Instrs {
+				call, ok := in.(*ssa.Call)
+				if !ok {
+					continue
+				}
+				if bi, ok := call.Call.Value.(*ssa.Builtin); ok && bi.Name() == "append" && len(call.Call.Args) == 2 {
+					for _, e := range variadicElems(call.Call.Args[1]) {
+						if e != nil && fromField(e, 0) {
+							extended = true
+						}
+					}
+				}
+			}
+		}
+		if extended {
+			return sprintf("reached only behind a loop that compares a key computed from the field with the key of every field registered before (%d comparison(s), each leaving the function on a match), and the field is registered on the way", cmps)
+		}
+	}
+	return ""
+}
+
+// derivedFrom: v is computed from a value that satisfies base - through operands, through what is stored into a local
+// (or into its fields and elements) that v is loaded from, and through the elements of a variadic argument slice.
+func derivedFrom(v ssa.Value, base func(ssa.Value) bool) bool {
+	seen := map[ssa.Value]bool{}
+	var rec func(v ssa.Value, d int) bool
+	rec = func(v ssa.Value, d int) bool {
+		if v == nil || d > 12 || seen[v] {
+			return false
+		}
+		seen[v] = true
+		if base(v) {
+			return true
+		}
+		if al, ok := v.(*ssa.Alloc); ok {
+			var stored func(addr ssa.Value) bool
+			stored = func(addr ssa.Value) bool {
+				refs := addr.Referrers()
+				if refs == nil {
+					return false
+				}
+				for _, r := range *refs {
+					switch x := r.(type) {
+					case *ssa.Store:
+						if x.Addr == addr && rec(x.Val, d+1) {
+							return true
+						}
+					case *ssa.FieldAddr:
+						if x.X == addr && stored(x) {
+							return true
+						}
+					case *ssa.IndexAddr:
+						if x.X == addr && stored(x) {
+							return true
+						}
+					}
+				}
+				return false
+			}
+			return stored(al)
+		}
+		if in, ok := v.(ssa.Instruction); ok {
+			for _, op := range in.Operands(nil) {
+				if *op != nil && rec(*op, d+1) {
+					return true
+				}
+			}
+		}
+		for _, e := range variadicElems(v) {
+			if e != nil && rec(e, d+1) {
+				return true
+			}
+		}
+		return false
+	}
+	return rec(v, 0)
 }
